@@ -34,6 +34,8 @@ structure Inv (s : Sys) : Prop where
   over : ∀ a i, s.maxRetries < (s.ep a).sends i → (s.ep a).raised = true
   sent_le : ∀ a i r, (s.ep a).inflight i = some r → r.sentAt ≤ (s.ep a).now
   sends_pos : ∀ a i, i < (s.ep a).idx → 1 ≤ (s.ep a).sends i
+  batch_ok : ∀ a d i, d ∈ (s.ep a).batch → d.body = Parsed.msg (Msg.ack i) →
+    ∃ c, (s.ep c).acked i a = true
 
 /-- monotone part of the state that `PktOk` and friends depend on -/
 structure Mono (s s' : Sys) : Prop where
@@ -76,7 +78,8 @@ theorem popHost_ep (s : Sys) (a h0 b : Nat) :
 
 theorem localMsg_ep (s : Sys) (a m b : Nat) :
     (localMsg s a m).ep b =
-      { s.ep b with inbox := if b = a then (s.ep b).inbox ++ [[Frame.msg (Msg.app m)]] else (s.ep b).inbox } := by
+      { s.ep b with inbox := if b = a then (s.ep b).inbox ++ [[Frame.msg (Msg.app m)]] else (s.ep b).inbox
+                    locals := if b = a then (s.ep b).locals ++ [m] else (s.ep b).locals } := by
   simp only [localMsg, setEp_ep]; split <;> simp_all
 @[simp] theorem localMsg_net (s : Sys) (a m : Nat) : (localMsg s a m).net = s.net := rfl
 @[simp] theorem localMsg_max (s : Sys) (a m : Nat) : (localMsg s a m).maxRetries = s.maxRetries := rfl
@@ -89,7 +92,7 @@ theorem arrive_ep (s : Sys) (p : Packet) (b : Nat) :
 @[simp] theorem arrive_max (s : Sys) (p : Packet) : (arrive s p).maxRetries = s.maxRetries := rfl
 
 theorem tick_inv {s : Sys} (h : Inv s) (a dt : Nat) : Inv (tick s a dt) := by
-  obtain ⟨h1, h2, h3, h4, h5, h6, h7, h8, h9, h10, h11, h12, h13, h14, h15, h16⟩ := h
+  obtain ⟨h1, h2, h3, h4, h5, h6, h7, h8, h9, h10, h11, h12, h13, h14, h15, h16, h17⟩ := h
   constructor <;> simp only [tick_ep, tick_net, tick_max, PktOk]
   · exact h1
   · exact h2
@@ -107,9 +110,10 @@ theorem tick_inv {s : Sys} (h : Inv s) (a dt : Nat) : Inv (tick s a dt) := by
   · exact h14
   · intro b i r hr; have := h15 b i r hr; omega
   · exact h16
+  · exact h17
 
 theorem popHost_inv {s : Sys} (h : Inv s) (a h0 : Nat) : Inv (popHost s a h0) := by
-  obtain ⟨h1, h2, h3, h4, h5, h6, h7, h8, h9, h10, h11, h12, h13, h14, h15, h16⟩ := h
+  obtain ⟨h1, h2, h3, h4, h5, h6, h7, h8, h9, h10, h11, h12, h13, h14, h15, h16, h17⟩ := h
   constructor <;> simp only [popHost_ep, popHost_net, popHost_max, PktOk]
   · exact h1
   · exact h2
@@ -131,9 +135,10 @@ theorem popHost_inv {s : Sys} (h : Inv s) (a h0 : Nat) : Inv (popHost s a h0) :=
   · exact h14
   · exact h15
   · exact h16
+  · exact h17
 
 theorem localMsg_inv {s : Sys} (h : Inv s) (a m : Nat) : Inv (localMsg s a m) := by
-  obtain ⟨h1, h2, h3, h4, h5, h6, h7, h8, h9, h10, h11, h12, h13, h14, h15, h16⟩ := h
+  obtain ⟨h1, h2, h3, h4, h5, h6, h7, h8, h9, h10, h11, h12, h13, h14, h15, h16, h17⟩ := h
   constructor <;> simp only [localMsg_ep, localMsg_net, localMsg_max, PktOk]
   · exact h1
   · exact h2
@@ -156,9 +161,10 @@ theorem localMsg_inv {s : Sys} (h : Inv s) (a m : Nat) : Inv (localMsg s a m) :=
   · exact h14
   · exact h15
   · exact h16
+  · exact h17
 
 theorem drop_inv {s : Sys} (h : Inv s) (k : Nat) : Inv (drop s k) := by
-  obtain ⟨h1, h2, h3, h4, h5, h6, h7, h8, h9, h10, h11, h12, h13, h14, h15, h16⟩ := h
+  obtain ⟨h1, h2, h3, h4, h5, h6, h7, h8, h9, h10, h11, h12, h13, h14, h15, h16, h17⟩ := h
   constructor <;> simp only [drop, PktOk]
   · exact h1
   · intro p hp; exact h2 p (List.mem_of_mem_eraseIdx hp)
@@ -176,9 +182,10 @@ theorem drop_inv {s : Sys} (h : Inv s) (k : Nat) : Inv (drop s k) := by
   · exact h14
   · exact h15
   · exact h16
+  · exact h17
 
 theorem arrive_inv {s : Sys} (h : Inv s) (p : Packet) (hp : PktOk s p.dst p.frames) : Inv (arrive s p) := by
-  obtain ⟨h1, h2, h3, h4, h5, h6, h7, h8, h9, h10, h11, h12, h13, h14, h15, h16⟩ := h
+  obtain ⟨h1, h2, h3, h4, h5, h6, h7, h8, h9, h10, h11, h12, h13, h14, h15, h16, h17⟩ := h
   simp only [PktOk] at hp
   constructor <;> simp only [arrive_ep, arrive_net, arrive_max, PktOk]
   · exact h1
@@ -202,6 +209,7 @@ theorem arrive_inv {s : Sys} (h : Inv s) (p : Packet) (hp : PktOk s p.dst p.fram
   · exact h14
   · exact h15
   · exact h16
+  · exact h17
 
 theorem deliver_inv {s : Sys} (h : Inv s) (k : Nat) : Inv (deliver s k) := by
   unfold deliver
@@ -245,7 +253,7 @@ theorem send_some_net {s : Sys} {a h d : Nat} (m : Nat) (hh : (s.ep a).hosts h =
     (send s a h m).net = s.net ++ [⟨d, dataFrames (s.ep a).idx a m⟩] := by simp [send, hh]
 
 theorem send_inv {s : Sys} (hi : Inv s) (a h m : Nat) : Inv (send s a h m) := by
-  obtain ⟨h1, h2, h3, h4, h5, h6, h7, h8, h9, h10, h11, h12, h13, h14, h15, h16⟩ := hi
+  obtain ⟨h1, h2, h3, h4, h5, h6, h7, h8, h9, h10, h11, h12, h13, h14, h15, h16, h17⟩ := hi
   cases hh : (s.ep a).hosts h with
   | none =>
     constructor <;> simp only [send_none_ep m hh, send_none_net m hh, send_max, PktOk]
@@ -265,6 +273,7 @@ theorem send_inv {s : Sys} (hi : Inv s) (a h m : Nat) : Inv (send s a h m) := by
     · exact h14
     · intro b i r hr; grind
     · exact h16
+    · exact h17
   | some d =>
     have hd0 : (s.ep a).hosts0 h = some d := by have := h11 a h; grind
     have hlognone : (s.ep a).log (s.ep a).idx = none := by
@@ -291,6 +300,7 @@ theorem send_inv {s : Sys} (hi : Inv s) (a h m : Nat) : Inv (send s a h m) := by
     · intro b i hi; grind
     · intro b i r hr; grind
     · intro b i hi; grind
+    · exact h17
 
 
 /-- the retry of idx `i` at `a` actually retransmits -/
@@ -334,7 +344,7 @@ theorem retryOne_fire_raise {s : Sys} {a i : Nat} {r : Rec} {d : Nat} (hf : Fire
 theorem retryOne_inv {s : Sys} (hi : Inv s) (a i : Nat) : Inv (retryOne s a i).1 := by
   rcases retryOne_cases s a i with h | ⟨r, d, hf⟩
   · rw [h]; exact hi
-  · obtain ⟨h1, h2, h3, h4, h5, h6, h7, h8, h9, h10, h11, h12, h13, h14, h15, h16⟩ := hi
+  · obtain ⟨h1, h2, h3, h4, h5, h6, h7, h8, h9, h10, h11, h12, h13, h14, h15, h16, h17⟩ := hi
     have hf' := hf
     obtain ⟨hr, hexp, hh⟩ := hf'
     have hlt : i < (s.ep a).idx := by
@@ -364,6 +374,7 @@ theorem retryOne_inv {s : Sys} (hi : Inv s) (a i : Nat) : Inv (retryOne s a i).1
     · intro b j hj; grind
     · intro b j r' hr'; grind
     · intro b j hj; grind
+    · exact h17
 
 theorem retryList_inv {s : Sys} (hi : Inv s) (a : Nat) (l : List Nat) : Inv (retryList s a l) := by
   induction l generalizing s with
@@ -377,70 +388,141 @@ theorem retryList_inv {s : Sys} (hi : Inv s) (a : Nat) (l : List Nat) : Inv (ret
 theorem retry_inv {s : Sys} (hi : Inv s) (a : Nat) : Inv (retry s a) := retryList_inv hi a _
 
 
-theorem recv_empty {s : Sys} {b : Nat} (feeds : Bool) (hin : (s.ep b).inbox = []) : recv s b feeds = s := by
-  simp [recv, hin]
+theorem collect_empty {s : Sys} {b : Nat} (hin : (s.ep b).inbox = []) : collect s b = s := by
+  simp [collect, hin]
 
-theorem recv_data_dup_ep {s : Sys} {b i a m : Nat} {rest : List (List Frame)} (feeds : Bool)
+theorem collect_data_dup_ep {s : Sys} {b i a m : Nat} {rest : List (List Frame)}
     (hin : (s.ep b).inbox = dataFrames i a m :: rest) (hack : (s.ep b).acked i a = true) (c : Nat) :
-    (recv s b feeds).ep c = { s.ep c with inbox := if c = b then rest else (s.ep c).inbox } := by
-  simp only [recv, hin, recvOne, dataFrames, hack, if_true, setEp_ep]; split <;> simp_all
-theorem recv_data_net {s : Sys} {b i a m : Nat} {rest : List (List Frame)} (feeds : Bool)
+    (collect s b).ep c = { s.ep c with inbox := if c = b then rest else (s.ep c).inbox } := by
+  simp only [collect, hin, recvOne, dataFrames, hack, if_true, setEp_ep]; split <;> simp_all
+theorem collect_data_net {s : Sys} {b i a m : Nat} {rest : List (List Frame)}
     (hin : (s.ep b).inbox = dataFrames i a m :: rest) :
-    (recv s b feeds).net = s.net ++ [⟨a, ackFrames i⟩] := by
-  cases hack : (s.ep b).acked i a <;> simp [recv, hin, recvOne, dataFrames, hack]
+    (collect s b).net = s.net ++ [⟨a, ackFrames i⟩] := by
+  cases hack : (s.ep b).acked i a <;> simp [collect, hin, recvOne, dataFrames, hack]
 
-theorem recv_data_new_ep {s : Sys} {b i a m : Nat} {rest : List (List Frame)} (feeds : Bool)
+theorem collect_data_new_ep {s : Sys} {b i a m : Nat} {rest : List (List Frame)}
     (hin : (s.ep b).inbox = dataFrames i a m :: rest) (hack : (s.ep b).acked i a = false) (c : Nat) :
-    (recv s b feeds).ep c = { s.ep c with
+    (collect s b).ep c = { s.ep c with
         inbox := if c = b then rest else (s.ep c).inbox
         acked := fun i' a' => if c = b ∧ i' = i ∧ a' = a then true else (s.ep c).acked i' a'
         delivered := if c = b then (s.ep c).delivered ++ [⟨some (i, a), Parsed.msg (Msg.app m)⟩]
-                     else (s.ep c).delivered } := by
-  simp only [recv, hin, recvOne, dataFrames, hack, parseBody, dispatch, Except.map, setEp_ep]
+                     else (s.ep c).delivered
+        batch := if c = b then (s.ep c).batch ++ [⟨some (i, a), Parsed.msg (Msg.app m)⟩]
+                 else (s.ep c).batch } := by
+  simp only [collect, hin, recvOne, dataFrames, hack, parseBody, Except.map, Delivery.isAck, setEp_ep]
   split
   · subst_vars; simp
   · simp_all
 
-theorem recv_ack_ep {s : Sys} {b i : Nat} {rest : List (List Frame)} (feeds : Bool)
+theorem collect_ack_ep {s : Sys} {b i : Nat} {rest : List (List Frame)}
     (hin : (s.ep b).inbox = ackFrames i :: rest) (c : Nat) :
-    (recv s b feeds).ep c = { s.ep c with
+    (collect s b).ep c = { s.ep c with
         inbox := if c = b then rest else (s.ep c).inbox
-        inflight := fun j => if c = b ∧ feeds = true ∧ j = i then none else (s.ep c).inflight j } := by
-  cases feeds <;>
-    simp only [recv, hin, recvOne, ackFrames, parseBody, dispatch, Except.map, senderAck, setEp_ep] <;>
-    split <;> rename_i hc <;> first | (subst hc; simp; try rfl) | simp [hc]
-theorem recv_ack_net {s : Sys} {b i : Nat} {rest : List (List Frame)} (feeds : Bool)
-    (hin : (s.ep b).inbox = ackFrames i :: rest) : (recv s b feeds).net = s.net := by
-  cases feeds <;> simp [recv, hin, recvOne, ackFrames, parseBody, dispatch, Except.map]
+        batch := if c = b then (s.ep c).batch ++ [⟨none, Parsed.msg (Msg.ack i)⟩] else (s.ep c).batch } := by
+  simp only [collect, hin, recvOne, ackFrames, parseBody, Except.map, Delivery.isAck, setEp_ep]
+  split
+  · subst_vars; simp
+  · simp_all
+theorem collect_ack_net {s : Sys} {b i : Nat} {rest : List (List Frame)}
+    (hin : (s.ep b).inbox = ackFrames i :: rest) : (collect s b).net = s.net := by
+  simp [collect, hin, recvOne, ackFrames, parseBody, Except.map]
 
-theorem recv_local_ep {s : Sys} {b m : Nat} {rest : List (List Frame)} (feeds : Bool)
+theorem collect_local_ep {s : Sys} {b m : Nat} {rest : List (List Frame)}
     (hin : (s.ep b).inbox = [Frame.msg (Msg.app m)] :: rest) (c : Nat) :
-    (recv s b feeds).ep c = { s.ep c with
+    (collect s b).ep c = { s.ep c with
         inbox := if c = b then rest else (s.ep c).inbox
         delivered := if c = b then (s.ep c).delivered ++ [⟨none, Parsed.msg (Msg.app m)⟩]
-                     else (s.ep c).delivered } := by
-  simp only [recv, hin, recvOne, parseBody, dispatch, Except.map, setEp_ep]
-  split <;> simp_all
-theorem recv_local_net {s : Sys} {b m : Nat} {rest : List (List Frame)} (feeds : Bool)
-    (hin : (s.ep b).inbox = [Frame.msg (Msg.app m)] :: rest) : (recv s b feeds).net = s.net := by
-  simp [recv, hin, recvOne, parseBody, dispatch, Except.map]
+                     else (s.ep c).delivered
+        batch := if c = b then (s.ep c).batch ++ [⟨none, Parsed.msg (Msg.app m)⟩] else (s.ep c).batch } := by
+  simp only [collect, hin, recvOne, parseBody, Except.map, Delivery.isAck, setEp_ep]
+  split
+  · subst_vars; simp
+  · simp_all
+theorem collect_local_net {s : Sys} {b m : Nat} {rest : List (List Frame)}
+    (hin : (s.ep b).inbox = [Frame.msg (Msg.app m)] :: rest) : (collect s b).net = s.net := by
+  simp [collect, hin, recvOne, parseBody, Except.map]
 
-@[simp] theorem recv_max (s : Sys) (b : Nat) (feeds : Bool) : (recv s b feeds).maxRetries = s.maxRetries := by
-  cases hin : (s.ep b).inbox <;> simp [recv, hin]
+@[simp] theorem collect_max (s : Sys) (b : Nat) : (collect s b).maxRetries = s.maxRetries := by
+  cases hin : (s.ep b).inbox <;> simp [collect, hin]
 
+/-! `process`, `commit`, `abort` -/
 
-theorem recv_inv {s : Sys} (hi : Inv s) (b : Nat) (feeds : Bool) : Inv (recv s b feeds) := by
+theorem setEp_self (s : Sys) (a : Nat) : setEp s a (s.ep a) = s := by
+  cases s with
+  | mk ep net mx =>
+    simp only [setEp]
+    congr 1
+    funext j
+    simp only [upd]
+    split
+    · subst_vars; rfl
+    · rfl
+
+theorem process_empty {s : Sys} {a : Nat} (feeds stage : Bool) (hb : (s.ep a).batch = []) :
+    process s a feeds stage = s := by
+  simp only [process, processEp, hb]; exact setEp_self s a
+
+theorem process_ack_ep {s : Sys} {a i : Nat} {sy : Option SynId} {rest : List Delivery} (feeds stage : Bool)
+    (hb : (s.ep a).batch = ⟨sy, Parsed.msg (Msg.ack i)⟩ :: rest) (c : Nat) :
+    (process s a feeds stage).ep c = { s.ep c with
+        batch := if c = a then rest else (s.ep c).batch
+        inflight := fun j => if c = a ∧ feeds = true ∧ j = i then none else (s.ep c).inflight j } := by
+  cases feeds <;>
+    simp only [process, processEp, hb, senderAck, setEp_ep] <;>
+    split <;> rename_i hc <;> first | (subst hc; simp; try rfl) | simp [hc]
+
+theorem process_msg_ep {s : Sys} {a : Nat} {d : Delivery} {rest : List Delivery} (feeds stage : Bool)
+    (hb : (s.ep a).batch = d :: rest) (hd : d.isAck = false) (c : Nat) :
+    (process s a feeds stage).ep c = { s.ep c with
+        batch := if c = a then rest else (s.ep c).batch
+        staged := if c = a ∧ stage = true then (s.ep c).staged ++ [d] else (s.ep c).staged
+        handled := if c = a ∧ stage = false then (s.ep c).handled ++ [d] else (s.ep c).handled } := by
+  obtain ⟨sy, body⟩ := d
+  cases body with
+  | msg m =>
+    cases m with
+    | ack i => simp [Delivery.isAck] at hd
+    | app m =>
+      cases stage <;> simp only [process, processEp, hb, setEp_ep] <;> split <;> rename_i hc <;>
+        first | (subst hc; simp) | simp [hc]
+  | payload h v =>
+    cases stage <;> simp only [process, processEp, hb, setEp_ep] <;> split <;> rename_i hc <;>
+      first | (subst hc; simp) | simp [hc]
+
+@[simp] theorem process_net (s : Sys) (a : Nat) (feeds stage : Bool) : (process s a feeds stage).net = s.net := rfl
+@[simp] theorem process_max (s : Sys) (a : Nat) (feeds stage : Bool) :
+    (process s a feeds stage).maxRetries = s.maxRetries := rfl
+
+theorem commit_ep (s : Sys) (a c : Nat) :
+    (commit s a).ep c = { s.ep c with
+        handled := if c = a then (s.ep c).handled ++ (s.ep c).staged else (s.ep c).handled
+        staged := if c = a then [] else (s.ep c).staged } := by
+  simp only [commit, setEp_ep]; split <;> simp_all
+@[simp] theorem commit_net (s : Sys) (a : Nat) : (commit s a).net = s.net := rfl
+@[simp] theorem commit_max (s : Sys) (a : Nat) : (commit s a).maxRetries = s.maxRetries := rfl
+
+theorem abort_ep (s : Sys) (a c : Nat) :
+    (abort s a).ep c = { s.ep c with
+        lost := if c = a then (s.ep c).lost ++ (s.ep c).staged ++ payloads (s.ep c).batch else (s.ep c).lost
+        batch := if c = a then [] else (s.ep c).batch
+        staged := if c = a then [] else (s.ep c).staged
+        aborts := if c = a then (s.ep c).aborts + 1 else (s.ep c).aborts } := by
+  simp only [abort, abortEp, setEp_ep]; split <;> simp_all
+@[simp] theorem abort_net (s : Sys) (a : Nat) : (abort s a).net = s.net := rfl
+@[simp] theorem abort_max (s : Sys) (a : Nat) : (abort s a).maxRetries = s.maxRetries := rfl
+
+theorem collect_inv {s : Sys} (hi : Inv s) (b : Nat) : Inv (collect s b) := by
   cases hin : (s.ep b).inbox with
-  | nil => rw [recv_empty feeds hin]; exact hi
+  | nil => rw [collect_empty hin]; exact hi
   | cons fs rest =>
     have hok := hi.wire_inbox b fs (by simp [hin])
-    obtain ⟨h1, h2, h3, h4, h5, h6, h7, h8, h9, h10, h11, h12, h13, h14, h15, h16⟩ := hi
+    obtain ⟨h1, h2, h3, h4, h5, h6, h7, h8, h9, h10, h11, h12, h13, h14, h15, h16, h17⟩ := hi
     have hrest : ∀ gs, gs ∈ rest → gs ∈ (s.ep b).inbox := by intro gs hg; simp [hin, hg]
     rcases hok with ⟨a, i, m, h, rfl, hl, h0⟩ | ⟨i, c, rfl, hc⟩ | ⟨m, rfl⟩
     · -- data frame
       cases hack : (s.ep b).acked i a with
       | true =>
-        constructor <;> simp only [recv_data_dup_ep feeds hin hack, recv_data_net feeds hin, recv_max, PktOk]
+        constructor <;> simp only [collect_data_dup_ep hin hack, collect_data_net hin, collect_max, PktOk]
         · exact h1
         · intro p hp
           rcases List.mem_append.mp hp with hp | hp
@@ -462,10 +544,11 @@ theorem recv_inv {s : Sys} (hi : Inv s) (b : Nat) (feeds : Bool) : Inv (recv s b
         · exact h14
         · exact h15
         · exact h16
+        · exact h17
       | false =>
         have hfresh : ∀ d ∈ (s.ep b).delivered, d.syn ≠ some (i, a) := by
           intro d hd hs; have := (h4 b d i a hd hs).2; simp [hack] at this
-        constructor <;> simp only [recv_data_new_ep feeds hin hack, recv_data_net feeds hin, recv_max, PktOk]
+        constructor <;> simp only [collect_data_new_ep hin hack, collect_data_net hin, collect_max, PktOk]
         · exact h1
         · intro p hp
           rcases List.mem_append.mp hp with hp | hp
@@ -517,10 +600,17 @@ theorem recv_inv {s : Sys} (hi : Inv s) (b : Nat) (feeds : Bool) : Inv (recv s b
         · exact h14
         · exact h15
         · exact h16
-    · -- ack frame: some listener c has (i, b) in its acked set
-      obtain ⟨d, hd, hs⟩ := h6 c i b hc
-      obtain ⟨⟨hh, mm, hlog, hh0, -⟩, -⟩ := h4 c d i b hd hs
-      constructor <;> simp only [recv_ack_ep feeds hin, recv_ack_net feeds hin, recv_max, PktOk]
+        · intro c d i' hd hb
+          have hold : d ∈ (s.ep c).batch := by
+            split at hd
+            · rcases List.mem_append.mp hd with hd | hd
+              · exact hd
+              · simp at hd; subst hd; simp at hb
+            · exact hd
+          obtain ⟨c', hc'⟩ := h17 c d i' hold hb
+          exact ⟨c', by grind⟩
+    · -- ack frame: some listener c has (i, b) in its acked set; the Ack joins the batch
+      constructor <;> simp only [collect_ack_ep hin, collect_ack_net hin, collect_max, PktOk]
       · exact h1
       · exact h2
       · intro c' gs hg; split at hg
@@ -529,32 +619,25 @@ theorem recv_inv {s : Sys} (hi : Inv s) (b : Nat) (feeds : Bool) : Inv (recv s b
       · exact h4
       · exact h5
       · exact h6
-      · intro c' j hj
-        by_cases hcase : c' = b ∧ feeds = true ∧ j = i
-        · obtain ⟨rfl, -, rfl⟩ := hcase
-          right; exact ⟨hh, mm, c, hlog, hh0, hc⟩
-        · have := h7 c' j hj; simp only [hcase, if_false]; exact this
+      · exact h7
       · exact h8
-      · intro c' j r hr hj; split at hr
-        · cases hr
-        · exact h9 c' j r hr hj
-      · intro c' j r hr hj; split at hr
-        · cases hr
-        · exact h10 c' j r hr hj
+      · exact h9
+      · exact h10
       · exact h11
-      · intro c' j r hr hj; split at hr
-        · cases hr
-        · exact h12 c' j r hr hj
-      · intro c' j r hr hj; split at hr
-        · cases hr
-        · exact h13 c' j r hr hj
+      · exact h12
+      · exact h13
       · exact h14
-      · intro c' j r hr; split at hr
-        · cases hr
-        · exact h15 c' j r hr
+      · exact h15
       · exact h16
+      · intro c' d i' hd hb
+        split at hd
+        · subst_vars
+          rcases List.mem_append.mp hd with hd | hd
+          · exact h17 _ d i' hd hb
+          · simp at hd; subst hd; simp at hb; subst hb; exact ⟨c, hc⟩
+        · exact h17 c' d i' hd hb
     · -- local un-acknowledged message
-      constructor <;> simp only [recv_local_ep feeds hin, recv_local_net feeds hin, recv_max, PktOk]
+      constructor <;> simp only [collect_local_ep hin, collect_local_net hin, collect_max, PktOk]
       · exact h1
       · exact h2
       · intro c gs hg; split at hg
@@ -585,6 +668,136 @@ theorem recv_inv {s : Sys} (hi : Inv s) (b : Nat) (feeds : Bool) : Inv (recv s b
       · exact h14
       · exact h15
       · exact h16
+      · intro c d i' hd hb
+        split at hd
+        · subst_vars
+          rcases List.mem_append.mp hd with hd | hd
+          · exact h17 _ d i' hd hb
+          · simp at hd; subst hd; simp at hb
+        · exact h17 c d i' hd hb
+
+theorem process_inv {s : Sys} (hi : Inv s) (a : Nat) (feeds stage : Bool) : Inv (process s a feeds stage) := by
+  cases hb : (s.ep a).batch with
+  | nil => rw [process_empty feeds stage hb]; exact hi
+  | cons d rest =>
+    have hrest : ∀ d', d' ∈ rest → d' ∈ (s.ep a).batch := by intro d' h; simp [hb, h]
+    cases hd : d.isAck with
+    | false =>
+      obtain ⟨h1, h2, h3, h4, h5, h6, h7, h8, h9, h10, h11, h12, h13, h14, h15, h16, h17⟩ := hi
+      constructor <;> simp only [process_msg_ep feeds stage hb hd, process_net, process_max, PktOk]
+      · exact h1
+      · exact h2
+      · exact h3
+      · exact h4
+      · exact h5
+      · exact h6
+      · exact h7
+      · exact h8
+      · exact h9
+      · exact h10
+      · exact h11
+      · exact h12
+      · exact h13
+      · exact h14
+      · exact h15
+      · exact h16
+      · intro c d' i' hd' hb'
+        split at hd'
+        · subst_vars; exact h17 _ d' i' (hrest d' hd') hb'
+        · exact h17 c d' i' hd' hb'
+    | true =>
+      obtain ⟨sy, body⟩ := d
+      have : ∃ i, body = Parsed.msg (Msg.ack i) := by
+        cases body with
+        | msg m => cases m with
+          | ack i => exact ⟨i, rfl⟩
+          | app m => simp [Delivery.isAck] at hd
+        | payload h v => simp [Delivery.isAck] at hd
+      obtain ⟨i, rfl⟩ := this
+      obtain ⟨c, hc⟩ := hi.batch_ok a ⟨sy, Parsed.msg (Msg.ack i)⟩ i (by simp [hb]) rfl
+      obtain ⟨h1, h2, h3, h4, h5, h6, h7, h8, h9, h10, h11, h12, h13, h14, h15, h16, h17⟩ := hi
+      obtain ⟨d, hd', hs⟩ := h6 c i a hc
+      obtain ⟨⟨hh, mm, hlog, hh0, -⟩, -⟩ := h4 c d i a hd' hs
+      constructor <;> simp only [process_ack_ep feeds stage hb, process_net, process_max, PktOk]
+      · exact h1
+      · exact h2
+      · exact h3
+      · exact h4
+      · exact h5
+      · exact h6
+      · intro c' j hj
+        by_cases hcase : c' = a ∧ feeds = true ∧ j = i
+        · obtain ⟨rfl, -, rfl⟩ := hcase
+          right; exact ⟨hh, mm, c, hlog, hh0, hc⟩
+        · have := h7 c' j hj; simp only [hcase, if_false]; exact this
+      · exact h8
+      · intro c' j r hr hj; split at hr
+        · cases hr
+        · exact h9 c' j r hr hj
+      · intro c' j r hr hj; split at hr
+        · cases hr
+        · exact h10 c' j r hr hj
+      · exact h11
+      · intro c' j r hr hj; split at hr
+        · cases hr
+        · exact h12 c' j r hr hj
+      · intro c' j r hr hj; split at hr
+        · cases hr
+        · exact h13 c' j r hr hj
+      · exact h14
+      · intro c' j r hr; split at hr
+        · cases hr
+        · exact h15 c' j r hr
+      · exact h16
+      · intro c' d' i' hd'' hb'
+        split at hd''
+        · subst_vars; exact h17 _ d' i' (hrest d' hd'') hb'
+        · exact h17 c' d' i' hd'' hb'
+
+theorem commit_inv {s : Sys} (hi : Inv s) (a : Nat) : Inv (commit s a) := by
+  obtain ⟨h1, h2, h3, h4, h5, h6, h7, h8, h9, h10, h11, h12, h13, h14, h15, h16, h17⟩ := hi
+  constructor <;> simp only [commit_ep, commit_net, commit_max, PktOk]
+  · exact h1
+  · exact h2
+  · exact h3
+  · exact h4
+  · exact h5
+  · exact h6
+  · exact h7
+  · exact h8
+  · exact h9
+  · exact h10
+  · exact h11
+  · exact h12
+  · exact h13
+  · exact h14
+  · exact h15
+  · exact h16
+  · exact h17
+
+theorem abort_inv {s : Sys} (hi : Inv s) (a : Nat) : Inv (abort s a) := by
+  obtain ⟨h1, h2, h3, h4, h5, h6, h7, h8, h9, h10, h11, h12, h13, h14, h15, h16, h17⟩ := hi
+  constructor <;> simp only [abort_ep, abort_net, abort_max, PktOk]
+  · exact h1
+  · exact h2
+  · exact h3
+  · exact h4
+  · exact h5
+  · exact h6
+  · exact h7
+  · exact h8
+  · exact h9
+  · exact h10
+  · exact h11
+  · exact h12
+  · exact h13
+  · exact h14
+  · exact h15
+  · exact h16
+  · intro c d i hd hb
+    split at hd
+    · simp at hd
+    · exact h17 c d i hd hb
 
 theorem step_inv {s : Sys} (hi : Inv s) (op : Op) : Inv (step s op) := by
   cases op with
@@ -593,7 +806,10 @@ theorem step_inv {s : Sys} (hi : Inv s) (op : Op) : Inv (step s op) := by
   | drop k => exact drop_inv hi k
   | deliver k => exact deliver_inv hi k
   | dup k => exact dup_inv hi k
-  | recv a f => exact recv_inv hi a f
+  | collect a => exact collect_inv hi a
+  | process a f st => exact process_inv hi a f st
+  | commit a => exact commit_inv hi a
+  | abort a => exact abort_inv hi a
   | retry a => exact retry_inv hi a
   | tick a dt => exact tick_inv hi a dt
   | popHost a h => exact popHost_inv hi a h
@@ -614,6 +830,9 @@ structure Later (s s' : Sys) : Prop where
   grace : ∀ a, (s'.ep a).grace = (s.ep a).grace
   max : s'.maxRetries = s.maxRetries
   delivered : ∀ b d, d ∈ (s.ep b).delivered → d ∈ (s'.ep b).delivered
+  handled : ∀ b d, d ∈ (s.ep b).handled → d ∈ (s'.ep b).handled
+  lost : ∀ b d, d ∈ (s.ep b).lost → d ∈ (s'.ep b).lost
+  aborts : ∀ b, (s.ep b).aborts ≤ (s'.ep b).aborts
   now : ∀ a, (s.ep a).now ≤ (s'.ep a).now
   inflNone : ∀ a i, i < (s.ep a).idx → (s.ep a).inflight i = none →
     (s'.ep a).inflight i = none ∧ (s'.ep a).sends i = (s.ep a).sends i
@@ -634,6 +853,9 @@ theorem Later.trans {s1 s2 s3 : Sys} (h12 : Later s1 s2) (h23 : Later s2 s3) : L
   · intro a; rw [h23.grace, h12.grace]
   · rw [h23.max, h12.max]
   · intro b d h; exact h23.delivered _ _ (h12.delivered _ _ h)
+  · intro b d h; exact h23.handled _ _ (h12.handled _ _ h)
+  · intro b d h; exact h23.lost _ _ (h12.lost _ _ h)
+  · intro b; exact Nat.le_trans (h12.aborts b) (h23.aborts b)
   · intro a; exact Nat.le_trans (h12.now a) (h23.now a)
   · intro a i hi hn
     obtain ⟨h1, h2⟩ := h12.inflNone a i hi hn
@@ -691,19 +913,42 @@ theorem retryList_later {s : Sys} (hi : Inv s) (a : Nat) (l : List Nat) : Later 
     · exact retryOne_later hi a i
     · exact (retryOne_later hi a i).trans (ih (retryOne_inv hi a i))
 
-theorem recv_later {s : Sys} (hi : Inv s) (b : Nat) (feeds : Bool) : Later s (recv s b feeds) := by
+theorem collect_later {s : Sys} (hi : Inv s) (b : Nat) : Later s (collect s b) := by
   cases hin : (s.ep b).inbox with
-  | nil => rw [recv_empty feeds hin]; exact Later.refl s
+  | nil => rw [collect_empty hin]; exact Later.refl s
   | cons fs rest =>
     have hok := hi.wire_inbox b fs (by simp [hin])
     rcases hok with ⟨a, i, m, h, rfl, hl, h0⟩ | ⟨i, c, rfl, hc⟩ | ⟨m, rfl⟩
     · cases hack : (s.ep b).acked i a with
       | true =>
-        constructor <;> simp only [recv_data_dup_ep feeds hin hack, recv_max] <;> intros <;> simp_all
+        constructor <;> simp only [collect_data_dup_ep hin hack, collect_max] <;> intros <;> simp_all
       | false =>
-        constructor <;> simp only [recv_data_new_ep feeds hin hack, recv_max] <;> intros <;> simp_all <;> grind
-    · constructor <;> simp only [recv_ack_ep feeds hin, recv_max] <;> intros <;> simp_all <;> grind
-    · constructor <;> simp only [recv_local_ep feeds hin, recv_max] <;> intros <;> simp_all <;> grind
+        constructor <;> simp only [collect_data_new_ep hin hack, collect_max] <;> intros <;> simp_all <;> grind
+    · constructor <;> simp only [collect_ack_ep hin, collect_max] <;> intros <;> simp_all
+    · constructor <;> simp only [collect_local_ep hin, collect_max] <;> intros <;> simp_all <;> grind
+
+theorem process_later (s : Sys) (a : Nat) (feeds stage : Bool) : Later s (process s a feeds stage) := by
+  cases hb : (s.ep a).batch with
+  | nil => rw [process_empty feeds stage hb]; exact Later.refl s
+  | cons d rest =>
+    cases hd : d.isAck with
+    | false =>
+      constructor <;> simp only [process_msg_ep feeds stage hb hd, process_max] <;> intros <;> simp_all <;> grind
+    | true =>
+      obtain ⟨sy, body⟩ := d
+      have : ∃ i, body = Parsed.msg (Msg.ack i) := by
+        cases body with
+        | msg m => cases m with
+          | ack i => exact ⟨i, rfl⟩
+          | app m => simp [Delivery.isAck] at hd
+        | payload h v => simp [Delivery.isAck] at hd
+      obtain ⟨i, rfl⟩ := this
+      constructor <;> simp only [process_ack_ep feeds stage hb, process_max] <;> intros <;> simp_all <;> grind
+
+theorem commit_later (s : Sys) (a : Nat) : Later s (commit s a) := by
+  constructor <;> simp only [commit_ep, commit_max] <;> intros <;> simp_all <;> grind
+theorem abort_later (s : Sys) (a : Nat) : Later s (abort s a) := by
+  constructor <;> simp only [abort_ep, abort_max] <;> intros <;> simp_all <;> grind
 
 theorem step_later {s : Sys} (hi : Inv s) (op : Op) : Later s (step s op) := by
   cases op with
@@ -712,7 +957,10 @@ theorem step_later {s : Sys} (hi : Inv s) (op : Op) : Later s (step s op) := by
   | drop k => exact drop_later s k
   | deliver k => exact deliver_later s k
   | dup k => exact dup_later s k
-  | recv a f => exact recv_later hi a f
+  | collect a => exact collect_later hi a
+  | process a f st => exact process_later s a f st
+  | commit a => exact commit_later s a
+  | abort a => exact abort_later s a
   | retry a => exact retryList_later hi a _
   | tick a dt => exact tick_later s a dt
   | popHost a h => exact popHost_later s a h
@@ -763,7 +1011,8 @@ theorem step_infl {s : Sys} (hi : Inv s) (op : Op) (a i : Nat) (r : Rec)
     (hlt : i < (s.ep a).idx) (hr : (s.ep a).inflight i = some r) :
     (∃ r', ((step s op).ep a).inflight i = some r' ∧ (op ≠ Op.retry a → r' = r)) ∨
     (((step s op).ep a).inflight i = none ∧
-      ∃ rest, op = Op.recv a true ∧ (s.ep a).inbox = ackFrames i :: rest) := by
+      ∃ stage sy rest, op = Op.process a true stage ∧
+        (s.ep a).batch = ⟨sy, Parsed.msg (Msg.ack i)⟩ :: rest) := by
   cases op with
   | send b h m =>
     left; refine ⟨r, ?_, fun _ => rfl⟩
@@ -799,26 +1048,45 @@ theorem step_infl {s : Sys} (hi : Inv s) (op : Op) (a i : Nat) (r : Rec)
       exact ⟨r', hr', fun h => absurd rfl h⟩
     · refine ⟨r, ?_, fun _ => rfl⟩
       simp only [step, retry]; rw [retryList_other s hab]; exact hr
-  | recv b feeds =>
+  | commit b => left; exact ⟨r, by simp only [step, commit_ep]; exact hr, fun _ => rfl⟩
+  | abort b => left; exact ⟨r, by simp only [step, abort_ep]; exact hr, fun _ => rfl⟩
+  | collect b =>
     simp only [step]
+    left; refine ⟨r, ?_, fun _ => rfl⟩
     cases hin : (s.ep b).inbox with
-    | nil => left; rw [recv_empty feeds hin]; exact ⟨r, hr, fun _ => rfl⟩
+    | nil => rw [collect_empty hin]; exact hr
     | cons fs rest =>
       have hok := hi.wire_inbox b fs (by simp [hin])
       rcases hok with ⟨a', i', m, h, rfl, hl, h0⟩ | ⟨i', c, rfl, hc⟩ | ⟨m, rfl⟩
-      · left; refine ⟨r, ?_, fun _ => rfl⟩
-        cases hack : (s.ep b).acked i' a' with
-        | true => rw [recv_data_dup_ep feeds hin hack]; exact hr
-        | false => rw [recv_data_new_ep feeds hin hack]; exact hr
-      · by_cases hcase : a = b ∧ feeds = true ∧ i = i'
+      · cases hack : (s.ep b).acked i' a' with
+        | true => rw [collect_data_dup_ep hin hack]; exact hr
+        | false => rw [collect_data_new_ep hin hack]; exact hr
+      · rw [collect_ack_ep hin]; exact hr
+      · rw [collect_local_ep hin]; exact hr
+  | process b feeds stage =>
+    simp only [step]
+    cases hb : (s.ep b).batch with
+    | nil => left; rw [process_empty feeds stage hb]; exact ⟨r, hr, fun _ => rfl⟩
+    | cons d rest =>
+      cases hd : d.isAck with
+      | false =>
+        left; refine ⟨r, ?_, fun _ => rfl⟩
+        rw [process_msg_ep feeds stage hb hd]; exact hr
+      | true =>
+        obtain ⟨sy, body⟩ := d
+        have : ∃ i', body = Parsed.msg (Msg.ack i') := by
+          cases body with
+          | msg m => cases m with
+            | ack i' => exact ⟨i', rfl⟩
+            | app m => simp [Delivery.isAck] at hd
+          | payload h v => simp [Delivery.isAck] at hd
+        obtain ⟨i', rfl⟩ := this
+        by_cases hcase : a = b ∧ feeds = true ∧ i = i'
         · obtain ⟨rfl, rfl, rfl⟩ := hcase
-          right; refine ⟨?_, rest, rfl, hin⟩
-          rw [recv_ack_ep true hin]; simp
+          right; refine ⟨?_, stage, sy, rest, rfl, hb⟩
+          rw [process_ack_ep true stage hb]; simp
         · left; refine ⟨r, ?_, fun _ => rfl⟩
-          rw [recv_ack_ep feeds hin]; simp only [hcase, if_false]; exact hr
-      · left; refine ⟨r, ?_, fun _ => rfl⟩
-        rw [recv_local_ep feeds hin]; exact hr
-
+          rw [process_ack_ep feeds stage hb]; simp only [hcase, if_false]; exact hr
 
 theorem run_append (s : Sys) (l1 l2 : List Op) : run s (l1 ++ l2) = run (run s l1) l2 := by
   induction l1 generalizing s with
@@ -1045,18 +1313,38 @@ theorem step_sends_le {s : Sys} (hi : Inv s) (op : Op) (a i : Nat) :
     have := retryList_sends b a i (List.range ((s.ep b).idx + 1)) s List.nodup_range
     simp only [step, retry]
     split at this <;> omega
-  | recv b feeds =>
+  | commit b => simp [step, commit_ep]
+  | abort b => simp [step, abort_ep]
+  | collect b =>
     simp only [step]
     cases hin : (s.ep b).inbox with
-    | nil => rw [recv_empty feeds hin]; omega
+    | nil => rw [collect_empty hin]; omega
     | cons fs rest =>
       have hok := hi.wire_inbox b fs (by simp [hin])
       rcases hok with ⟨a', i', m, h, rfl, hl, h0⟩ | ⟨i', c, rfl, hc⟩ | ⟨m, rfl⟩
       · cases hack : (s.ep b).acked i' a' with
-        | true => rw [recv_data_dup_ep feeds hin hack]; simp
-        | false => rw [recv_data_new_ep feeds hin hack]; simp
-      · rw [recv_ack_ep feeds hin]; simp
-      · rw [recv_local_ep feeds hin]; simp
+        | true => rw [collect_data_dup_ep hin hack]; simp
+        | false => rw [collect_data_new_ep hin hack]; simp
+      · rw [collect_ack_ep hin]; simp
+      · rw [collect_local_ep hin]; simp
+  | process b feeds stage =>
+    have := (process_later s b feeds stage)
+    simp only [step]
+    cases hb : (s.ep b).batch with
+    | nil => rw [process_empty feeds stage hb]; omega
+    | cons d rest =>
+      cases hd : d.isAck with
+      | false => rw [process_msg_ep feeds stage hb hd]; simp
+      | true =>
+        obtain ⟨sy, body⟩ := d
+        have : ∃ i', body = Parsed.msg (Msg.ack i') := by
+          cases body with
+          | msg m => cases m with
+            | ack i' => exact ⟨i', rfl⟩
+            | app m => simp [Delivery.isAck] at hd
+          | payload h v => simp [Delivery.isAck] at hd
+        obtain ⟨i', rfl⟩ := this
+        rw [process_ack_ep feeds stage hb]; simp
 
 /-- in reachable states `_recv_one` never raises: every queued frame list is a legal shape -/
 theorem step_errors {s : Sys} (hi : Inv s) (op : Op) (a : Nat) :
@@ -1086,18 +1374,37 @@ theorem step_errors {s : Sys} (hi : Inv s) (op : Op) (a : Nat) :
       simp only [retryList]; split
       · exact h1
       · rw [ih (retryOne_inv hi b j), h1]
-  | recv b feeds =>
+  | commit b => simp [step, commit_ep]
+  | abort b => simp [step, abort_ep]
+  | collect b =>
     simp only [step]
     cases hin : (s.ep b).inbox with
-    | nil => rw [recv_empty feeds hin]
+    | nil => rw [collect_empty hin]
     | cons fs rest =>
       have hok := hi.wire_inbox b fs (by simp [hin])
       rcases hok with ⟨a', i', m, h, rfl, hl, h0⟩ | ⟨i', c, rfl, hc⟩ | ⟨m, rfl⟩
       · cases hack : (s.ep b).acked i' a' with
-        | true => rw [recv_data_dup_ep feeds hin hack]
-        | false => rw [recv_data_new_ep feeds hin hack]
-      · rw [recv_ack_ep feeds hin]
-      · rw [recv_local_ep feeds hin]
+        | true => rw [collect_data_dup_ep hin hack]
+        | false => rw [collect_data_new_ep hin hack]
+      · rw [collect_ack_ep hin]
+      · rw [collect_local_ep hin]
+  | process b feeds stage =>
+    simp only [step]
+    cases hb : (s.ep b).batch with
+    | nil => rw [process_empty feeds stage hb]
+    | cons d rest =>
+      cases hd : d.isAck with
+      | false => rw [process_msg_ep feeds stage hb hd]
+      | true =>
+        obtain ⟨sy, body⟩ := d
+        have : ∃ i', body = Parsed.msg (Msg.ack i') := by
+          cases body with
+          | msg m => cases m with
+            | ack i' => exact ⟨i', rfl⟩
+            | app m => simp [Delivery.isAck] at hd
+          | payload h v => simp [Delivery.isAck] at hd
+        obtain ⟨i', rfl⟩ := this
+        rw [process_ack_ep feeds stage hb]
 
 
 end EkwVerif.Ack
